@@ -10,7 +10,8 @@ The PointTier constructor sorts its entries, strips their labels and takes the h
 span, so EVERY tier it returns is well-formed, whatever it is given (`pconstruct_wf`); the only refusal is the
 TimelessTextgridTierException of an empty tier without any bound.  All operations but three return through the
 constructor.  The three in-place ones are covered directly: `deleteEntry` leaves a sub-list of a sorted list,
-`insertEntry` re-sorts and grows the span to the first and last entry (after the repair A3), `eraseRegion` without
+`insertEntry` (after the repair A24: every point at the insertion time collides; closed form `pinsert_unfold`) re-sorts and
+grows the span to the first and last entry (after the repair A3), `eraseRegion` without
 shrinking only deletes.  No separation hypothesis is needed: `deleteEntry` of a member removes exactly that member
 (`deletePt_of_mem`), and whichever entry the tolerant `Point.__eq__` makes it remove for an absent argument, what
 remains is a sub-list.  Hence `POpOk` is `True` for every operation and
@@ -230,56 +231,117 @@ theorem growSpanP_wf (t : PTier Int) (hspan : t.lo ≤ t.hi) (ps : List (Pt Int)
     · intro p hp; have := h2 p hp; simp only; split <;> omega
     · simp only; split <;> split <;> omega
 
+/-- deleting a sub-multiset of the entries one after the other removes exactly those occurrences -/
+theorem foldlM_deletePt_eq (ms ps : List (Pt Int)) (hms : ∀ x, ms.count x ≤ ps.count x) :
+    ms.foldlM deletePt ps = .ok (ms.foldl (fun acc m => acc.erase m) ps) := by
+  induction ms generalizing ps with
+  | nil => rfl
+  | cons m ms ih =>
+    have hm : m ∈ ps := by
+      have := hms m
+      simp only [List.count_cons_self] at this
+      exact List.count_pos_iff.1 (by omega)
+    simp only [List.foldlM_cons, List.foldl_cons, bind, Except.bind, deletePt_of_mem ps m hm]
+    apply ih (ps.erase m)
+    intro x
+    have := hms x
+    rw [List.count_erase]
+    rw [List.count_cons] at this
+    by_cases hx : x = m
+    · subst hx; simp only [beq_self_eq_true, if_true] at this ⊢; omega
+    · have h2 : (m == x) = false := by simpa using (Ne.symm hx)
+      simp only [h2, Bool.false_eq_true, if_false] at this ⊢; omega
+
+theorem foldl_erase_cons_of_ne (ms L : List (Pt Int)) (p : Pt Int) (h : ∀ m ∈ ms, m ≠ p) :
+    ms.foldl (fun acc m => acc.erase m) (p :: L) = p :: ms.foldl (fun acc m => acc.erase m) L := by
+  induction ms generalizing L with
+  | nil => rfl
+  | cons m ms ih =>
+    simp only [List.foldl_cons]
+    rw [List.erase_cons_tail (by simpa using (h m (by simp)).symm)]
+    exact ih _ (fun m' hm' => h m' (List.mem_cons_of_mem _ hm'))
+
+/-- erasing, one after the other, the entries that satisfy `q` leaves the entries that do not -/
+theorem foldl_erase_filter (q : Pt Int → Bool) (ps : List (Pt Int)) :
+    (ps.filter q).foldl (fun acc m => acc.erase m) ps = ps.filter (fun p => !q p) := by
+  induction ps with
+  | nil => rfl
+  | cons p rest ih =>
+    by_cases hq : q p = true
+    · simp only [List.filter_cons, hq, if_true, List.foldl_cons, List.erase_cons_head, Bool.not_true,
+        Bool.false_eq_true, if_false]
+      exact ih
+    · have hq' : q p = false := by simpa using hq
+      simp only [List.filter_cons, hq', Bool.false_eq_true, if_false, Bool.not_false, if_true]
+      rw [foldl_erase_cons_of_ne _ _ _ (fun m hm e => by
+        rw [e] at hm; have := (List.mem_filter.1 hm).2; rw [hq'] at this; cases this), ih]
+
+/-- the deletion loop of `insertEntry` ('replace' and 'merge'): every point at time `a` goes, the others stay -/
+theorem deleteAll_at (ps : List (Pt Int)) (a : Int) :
+    (ps.filter (fun p => p.t == a)).foldlM deletePt ps = .ok (ps.filter (fun p => !(p.t == a))) := by
+  rw [foldlM_deletePt_eq _ _ (fun x => List.filter_sublist.count_le x), foldl_erase_filter]
+
+/-- `insertEntry` in closed form -/
+theorem pinsert_unfold (t : PTier Int) (x : Pt Int) :
+    (t.ps.filter (fun p => p.t == x.t) = [] → ∀ mode,
+      t.insertEntry x mode = .ok (growSpanP t (sortPts (t.ps ++ [⟨x.t, pyStrip x.l⟩])))) ∧
+    (t.ps.filter (fun p => p.t == x.t) ≠ [] →
+      t.insertEntry x .replace =
+        .ok (growSpanP t (sortPts (t.ps.filter (fun p => !(p.t == x.t)) ++ [⟨x.t, pyStrip x.l⟩]))) ∧
+      t.insertEntry x .merge =
+        .ok (growSpanP t (sortPts (t.ps.filter (fun p => !(p.t == x.t)) ++
+          [⟨x.t, pyJoin "-" ((t.ps.filter (fun p => p.t == x.t)).map (·.l) ++ [pyStrip x.l])⟩]))) ∧
+      t.insertEntry x .error = .error .CollisionError) := by
+  have hd := deleteAll_at t.ps x.t
+  constructor
+  · intro h mode
+    unfold PTier.insertEntry
+    simp [h, bind, Except.bind, pure, Except.pure]
+  · intro h
+    have hne : (t.ps.filter (fun p => p.t == x.t)).isEmpty = false := by
+      cases hf : t.ps.filter (fun p => p.t == x.t) with
+      | nil => exact absurd hf h
+      | cons a as => rfl
+    unfold PTier.insertEntry
+    simp only [hne, hd, bind, Except.bind, pure, Except.pure, throw, throwThe, MonadExceptOf.throw]
+    simp
+
 theorem pinsert_wf (t : PTier Int) (hwf : t.WF) (x : Pt Int) (m : InsMode) (t' : PTier Int)
     (h : t.insertEntry x m = .ok t') : t'.WF := by
-  unfold PTier.insertEntry at h
   have hx : pyStrip (pyStrip x.l) = pyStrip x.l := pyStrip_idem _
   -- every list that reaches the final sort has stripped labels
   have key : ∀ ps1 : List (Pt Int), (∀ p ∈ ps1, pyStrip p.l = p.l) → (growSpanP t (sortPts ps1)).WF := by
     intro ps1 hs
     exact growSpanP_wf t hwf.span _ (C14.sortPts_pairwise _) (fun p hp => hs p (mem_sortPts.1 hp))
-  cases hf : t.ps.find? (fun p => p.t == ({ x with l := pyStrip x.l } : Pt Int).t) with
-  | none =>
-    simp only [hf, bind, Except.bind, pure, Except.pure, Except.ok.injEq] at h
-    subst h
+  have hkept : ∀ (z : Pt Int), pyStrip z.l = z.l →
+      ∀ p ∈ t.ps.filter (fun p => !(p.t == x.t)) ++ [z], pyStrip p.l = p.l := by
+    intro z hz p hp
+    rcases List.mem_append.1 hp with hp' | hp'
+    · exact hwf.stripped p (List.mem_filter.1 hp').1
+    · simp only [List.mem_singleton] at hp'; subst hp'; exact hz
+  by_cases hml : t.ps.filter (fun p => p.t == x.t) = []
+  · rw [(pinsert_unfold t x).1 hml m] at h
+    simp only [Except.ok.injEq] at h; subst h
     apply key
     intro p hp
     rcases List.mem_append.1 hp with hp' | hp'
     · exact hwf.stripped p hp'
     · simp only [List.mem_singleton] at hp'; subst hp'; exact hx
-  | some old =>
-    have hold : old ∈ t.ps := List.mem_of_find?_eq_some hf
-    simp only [hf] at h
+  · obtain ⟨h1, h2, h3⟩ := (pinsert_unfold t x).2 hml
     cases m with
-    | error => simp [bind, Except.bind, throw, throwThe, MonadExceptOf.throw] at h
+    | error => rw [h3] at h; cases h
     | replace =>
-      cases hd : deletePt t.ps old with
-      | error e => simp [hd, bind, Except.bind] at h
-      | ok ps0 =>
-        simp only [hd, bind, Except.bind, pure, Except.pure, Except.ok.injEq] at h
-        subst h
-        apply key
-        intro p hp
-        rcases List.mem_append.1 hp with hp' | hp'
-        · exact hwf.stripped p ((deletePt_sublist _ _ _ hd).subset hp')
-        · simp only [List.mem_singleton] at hp'; subst hp'; exact hx
+      rw [h1] at h; simp only [Except.ok.injEq] at h; subst h
+      exact key _ (hkept _ hx)
     | merge =>
-      cases hd : deletePt t.ps old with
-      | error e => simp [hd, bind, Except.bind] at h
-      | ok ps0 =>
-        simp only [hd, bind, Except.bind, pure, Except.pure, Except.ok.injEq] at h
-        subst h
-        apply key
-        intro p hp
-        rcases List.mem_append.1 hp with hp' | hp'
-        · exact hwf.stripped p ((deletePt_sublist _ _ _ hd).subset hp')
-        · simp only [List.mem_singleton] at hp'; subst hp'
-          apply pyStrip_pyJoin
-          intro l hl
-          simp only [List.mem_cons, List.not_mem_nil, or_false] at hl
-          rcases hl with rfl | rfl
-          · exact hwf.stripped old hold
-          · exact hx
+      rw [h2] at h; simp only [Except.ok.injEq] at h; subst h
+      apply key _ (hkept _ _)
+      apply pyStrip_pyJoin
+      intro l hl
+      rcases List.mem_append.1 hl with hl' | hl'
+      · obtain ⟨p, hp, rfl⟩ := List.mem_map.1 hl'
+        exact hwf.stripped p (List.mem_filter.1 hp).1
+      · simp only [List.mem_singleton] at hl'; subst hl'; exact hx
 
 theorem perase_wf (t : PTier Int) (a b : Int) (sh : Bool) (t' : PTier Int)
     (h : t.eraseRegion a b sh = .ok t') : t'.WF := by
@@ -538,20 +600,17 @@ theorem pdejitter_err (t : PTier Int) (refs : List Int) (md : Int) (e : Err) (h 
 /-- `insertEntry` refuses only in `error` mode, only with CollisionError, only when a point sits at that time -/
 theorem pinsert_err (t : PTier Int) (x : Pt Int) (m : InsMode) (e : Err) (h : t.insertEntry x m = .error e) :
     e = .CollisionError ∧ m = .error ∧ ∃ p ∈ t.ps, p.t = x.t := by
-  unfold PTier.insertEntry at h
-  cases hf : t.ps.find? (fun p => p.t == ({ x with l := pyStrip x.l } : Pt Int).t) with
-  | none => simp [hf, bind, Except.bind, pure, Except.pure] at h
-  | some old =>
-    have hold : old ∈ t.ps := List.mem_of_find?_eq_some hf
-    have hot : old.t = x.t := by simpa using List.find?_some hf
-    obtain ⟨ps0, hd⟩ := deletePt_ok_of_mem t.ps old hold
-    simp only [hf] at h
+  by_cases hml : t.ps.filter (fun p => p.t == x.t) = []
+  · rw [(pinsert_unfold t x).1 hml m] at h; cases h
+  · obtain ⟨h1, h2, h3⟩ := (pinsert_unfold t x).2 hml
+    obtain ⟨p, hp⟩ := List.exists_mem_of_ne_nil _ hml
+    have hpm := List.mem_filter.1 hp
     cases m with
     | error =>
-      simp only [bind, Except.bind, throw, throwThe, MonadExceptOf.throw, Except.error.injEq] at h
-      exact ⟨h.symm, rfl, old, hold, hot⟩
-    | replace => simp [hd, bind, Except.bind, pure, Except.pure] at h
-    | merge => simp [hd, bind, Except.bind, pure, Except.pure] at h
+      rw [h3] at h; simp only [Except.error.injEq] at h
+      exact ⟨h.symm, rfl, p, hpm.1, by simpa using hpm.2⟩
+    | replace => rw [h1] at h; cases h
+    | merge => rw [h2] at h; cases h
 
 theorem foldlM_pinsert_merge_ok (es : List (Pt Int)) (t : PTier Int) :
     ∃ r, es.foldlM (fun acc e => acc.insertEntry e .merge) t = .ok r := by
@@ -660,7 +719,7 @@ def exU : PTier Int := ⟨"U", [⟨25, "u"⟩, ⟨70, "v"⟩, ⟨130, "w"⟩], 0
 theorem exP_wf : exP.WF := by
   refine ⟨?_, ?_, ?_, ?_, ?_⟩ <;> simp [exP, Pt.le] <;> decide
 
-/-- a merge onto an occupied time with an unstripped label; space; a point outside the span; union with a longer tier;
+/-- a merge onto a time occupied by TWO points, with an unstripped label (all three labels are joined); space; a point outside the span; union with a longer tier;
 deletion; erasing with shrinking; a shift that drops a point; crop with rebasing; append; dejitter -/
 def exOps : List POp :=
   [.insert ⟨40, "  n "⟩ .merge, .space 50 20, .insert ⟨150, "far\n"⟩ .error, .union exU, .delete ⟨10, "a"⟩,
@@ -684,9 +743,9 @@ def prunStrict (t : PTier Int) : List POp → Except Err (PTier Int)
 #guard (prunStrict exP exOps).toOption.map (fun t => (t.name, t.ps, t.lo, t.hi)) ==
   some ("P", [⟨0, "v"⟩, ⟨25, "d"⟩, ⟨65, "w"⟩, ⟨85, "far"⟩, ⟨115, "u"⟩, ⟨160, "v"⟩, ⟨220, "w"⟩], 0, 220)
 #guard (prunStrict exP (exOps.take 1)).toOption.map (fun t => (t.ps, t.lo, t.hi)) ==
-  some ([⟨10, "a"⟩, ⟨40, "b-n"⟩, ⟨40, "c"⟩, ⟨70, "d"⟩], 0, 100)
+  some ([⟨10, "a"⟩, ⟨40, "b-c-n"⟩, ⟨70, "d"⟩], 0, 100)
 #guard (prunStrict exP (exOps.take 3)).toOption.map (fun t => (t.ps, t.lo, t.hi)) ==
-  some ([⟨10, "a"⟩, ⟨40, "b-n"⟩, ⟨40, "c"⟩, ⟨90, "d"⟩, ⟨150, "far"⟩], 0, 150)
+  some ([⟨10, "a"⟩, ⟨40, "b-c-n"⟩, ⟨90, "d"⟩, ⟨150, "far"⟩], 0, 150)
 #guard (prunStrict exP (exOps.take 6)).toOption.map (fun t => (t.ps, t.lo, t.hi)) ==
   some ([⟨25, "u"⟩, ⟨40, "v"⟩, ⟨60, "d"⟩, ⟨100, "w"⟩, ⟨120, "far"⟩], 0, 120)
 #guard (prun exP exOps).validate
